@@ -101,7 +101,9 @@ func TransformModuleFilesToModel( //nolint:funlen,gocognit,cyclop
 		}
 
 		for _, typeDef := range mdl.GetTypeDefinitions() {
-			_, extension := typeDefExtensions[typeDef.GetType()]
+			// a file may both define a type and extend it: only the definition the parser recorded as the
+			// extension is one, not every definition with that name
+			extension := typeDefExtensions[typeDef.GetType()] == typeDef
 			if slices.Contains(types, typeDef.GetType()) && !extension {
 				lineIndex := utils.GetTypeLineNumber(typeDef.GetType(), lines)
 				line, col := utils.ConstructLineAndColumnData(lines, lineIndex, typeDef.GetType())
